@@ -235,6 +235,25 @@ func (c *Canary) DrainTx() [][]byte {
 	}
 }
 
+// DrainTxQuiesced is DrainTx for a canary driven only by InjectFrame from the calling
+// goroutine: every send() runs with its connection's state mutex held, so with all
+// state mutexes taken no handler goroutine can be writing to the transmit ring while it
+// is drained.
+func (c *Canary) DrainTxQuiesced() [][]byte {
+	var held []*State
+	for i := range c.stateTable {
+		if s := c.stateTable[i]; s != nil {
+			s.m.Lock()
+			held = append(held, s)
+		}
+	}
+	out := c.DrainTx()
+	for _, s := range held {
+		s.m.Unlock()
+	}
+	return out
+}
+
 // VerifStateCount returns the number of occupied state table slots.
 func (c *Canary) VerifStateCount() int {
 	n := 0
